@@ -6,6 +6,20 @@ from .refmodel import RefCircuit, build, free_nodes, simulate
 GATES2 = ["and", "nand", "or", "nor", "xor", "xnor"]
 
 
+def guarded(fn):
+    """A model netlist that cannot be evaluated (cycle, missing node, x value) is a failed obligation, not a checker error."""
+    from .minieval import ModelRaise
+
+    def wrapper(*a, **k):
+        try:
+            return fn(*a, **k)
+        except (ModelRaise, ValueError, KeyError) as e:
+            return {"problem": f"result cannot be evaluated: {type(e).__name__}: {e}"}
+
+    wrapper.__name__ = fn.__name__
+    return wrapper
+
+
 def assignments(names):
     names = list(names)
     for bits in itertools.product([False, True], repeat=len(names)):
